@@ -14,6 +14,10 @@ def main():
     assert out.strip() == "", "repo not clean: " + out
     res["demo_clean_rc"], _ = sh(f"cd /repo && /venv/bin/python -W ignore {d}/demo.py")
     rc, out = sh(f"git -C /repo apply {d}/patch.diff")
+    if rc != 0:
+        # written against an earlier HEAD (fix commits since then): fall back to a three-way merge
+        rc, out = sh(f"git -C /repo apply --3way {d}/patch.diff")
+        res["applied"] = "3way"
     assert rc == 0, out
     try:
         res["demo_patched_rc"], o = sh(f"cd /repo && /venv/bin/python -W ignore {d}/demo.py")
@@ -24,7 +28,7 @@ def main():
         rc, o = sh("cd /verif && /venv/bin/python -m harness.baseline")
         res["tests"] = o.strip()[:300]
     finally:
-        sh("git -C /repo checkout -- .")
+        sh("git -C /repo reset -q && git -C /repo checkout -- .")
     print(json.dumps(res, indent=1))
 
 main()
